@@ -228,6 +228,15 @@ impl Universe {
                 probe_names.push(w);
             }
         }
+        // Label-boundary confusers: names that end, octet for octet, with a
+        // key's wire form although they are not below it (the key's labels,
+        // length octets included, sit inside one longer label): `x\001a.`,
+        // `x\001b.a.`, `y\001b\001a.`, one name below a confuser.
+        for (label, parent) in [(&b"x\x01a"[..], "."), (&b"x\x01b"[..], "a."), (&b"y\x01b\x01a"[..], "."), (&b"X\x01E"[..], ".")] {
+            let w = wire::child(label, &wire::wname(parent));
+            probe_names.push(wire::child(b"w", &w));
+            probe_names.push(w);
+        }
         let mut probe_classes: Vec<u16> = classes.to_vec();
         for c in [wire::c::IN, wire::c::CH, wire::c::HS] {
             if !probe_classes.contains(&c) {
